@@ -111,11 +111,17 @@ func (b *tqcache) DeleteBlock(ctx context.Context, k cid.Cid) error {
 	b.lock(key, true)
 	defer b.unlock(key, true)
 
+	// Drop the cached entry before touching the store. Otherwise the stale
+	// "have" entry stays visible to the lock-free fast paths (Has, GetSize,
+	// Put) while the block is already gone from the store. Anything that reads
+	// the store directly in that window, such as a Bloom filter (re)build
+	// enumerating keys, makes the deletion observable early, and a Put issued
+	// after that observation would be dropped by the stale entry.
+	b.cacheInvalidate(key)
+
 	err := b.blockstore.DeleteBlock(ctx, k)
 	if err == nil {
 		b.cacheHave(key, false)
-	} else {
-		b.cacheInvalidate(key)
 	}
 	return err
 }
